@@ -6,7 +6,8 @@ W="${1:-4}"
 S="${SEED_SCRATCH:-/tmp/qa_seedwt}"
 cd /verif
 mkdir -p "$S"
-ls -d seeded/C*/ | sed 's|/$||' > "$S/list"
+# SEED_FILTER=<extended regex> restricts the run to matching seed names (e.g. '^seeded/C(06|07|09)-')
+ls -d seeded/C*/ | sed 's|/$||' | grep -E "${SEED_FILTER:-.}" > "$S/list"
 one() {
   slot="$1"; d="$2"; n=$(basename "$d")
   wt="$S/wt$slot"
